@@ -141,7 +141,7 @@ func c12ByLanguage(p *Program, r *Report) bool {
 	// the URL guard's language on a term of its own
 	const guardKey = 900
 	s2 := NewSummarizer(p, g.Regexes)
-	gf := s2.FuncForm(g.Fn, termEnv{g.Fn.Params[0]: Term{Param: guardKey}})
+	gf := g.GuardForm(s2, guardKey)
 	if u, why := gf.HasUnknown(); u || len(s2.Inexact) > 0 {
 		r.Undec("C12.L1", cn+"#result-language", pos, "URL guard not summarisable exactly: "+why)
 		return false
